@@ -433,7 +433,7 @@ def simulated_behaviours(chk, n, depth, consts):
 
 
 def describe(e):
-    return {"behaviour": e.get("behaviour"), "step": e.get("step"), "op": e["op"], "out": e["out"],
+    return {"behaviour": e.get("behaviour"), "step": e.get("step"), "history": e.get("history"), "op": e["op"], "out": e["out"],
             "changed_schemas": e["changed"], "changed_caller_values": e["heap_changed"], "repeat_ok": e["repeat_ok"]}
 
 
@@ -476,13 +476,15 @@ def main(chk):
         for k, e in enumerate(evs):
             e["behaviour"] = nb
             e["step"] = k + 1
+            if e["changed"] or e["heap_changed"] or not e["repeat_ok"]:
+                e["history"] = hist[: k + 1]
             chk.count("op_" + e["op"])
         events += evs
     for k, e in enumerate(events):
         e["id"] = k + 1
     chk.require(chk.counts.get("op_mutate", 0) >= 100 and chk.counts.get("op_list_from", 0) >= 50,
                 "operation mix too thin: %r" % chk.counts)
-    slim = [{k: v for k, v in e.items() if k not in ("behaviour", "step")} for e in events]
+    slim = [{k: v for k, v in e.items() if k not in ("behaviour", "step", "history")} for e in events]
     consts_trace = {"MaxPool": "100", "MaxHeap": "100", "MaxSteps": "1000", "Narrow": "FALSE"}
     name = "C07_Trace_D42"
     wd = tlc.workdir(name + "_ev")
